@@ -155,8 +155,17 @@ def check_wrapper(case) -> list[Fail]:
     kind = case["kind"]
     row = case["row"]  # type names of the wires
     tr = _types(row)
-    host = Dfg(*tr, *( [tys.Bool] if kind == "conditional" else []))
-    wires = list(host.inputs())[: len(tr)]
+    host_row = [*tr, *([tys.Bool] if kind == "conditional" else [])]
+    if case.get("host") == "block":
+        # the host is a basic block of a CFG; every other wire comes from the dominating entry block
+        cfg_host = Cfg(*host_row)
+        entry_b = cfg_host.add_entry()
+        entry_b.set_single_succ_outputs(*entry_b.inputs())
+        host = cfg_host.add_successor(entry_b[0])
+        wires = [(entry_b.inputs()[i] if i % 2 == 0 else host.inputs()[i]) for i in range(len(tr))]
+    else:
+        host = Dfg(*host_row)
+        wires = list(host.inputs())[: len(tr)]
     meta = case.get("meta")
     if kind == "nested":
         b = Dfg(*tr)
@@ -240,10 +249,11 @@ wrapper_strategy = st.fixed_dictionaries(
         "order": st.booleans(),
         "just": st.integers(0, 4),
         "meta": store.META,
+        "host": st.sampled_from(["dfg", "dfg", "block"]),
     }
 )
 
 SUBS = [
     Sub("raw", check_raw, fuzz_runs=1500, strategy=raw_strategy, nontrivial=nt_raw, classes=lambda c: sorted(b_flags(c)[0]), n_quick=1600, n_thorough=4000),
-    Sub("wrappers", check_wrapper, strategy=lambda tier: wrapper_strategy, nontrivial=lambda c: len(c["row"]) >= 1, classes=lambda c: [c["kind"]], n_quick=400, n_thorough=1500),
+    Sub("wrappers", check_wrapper, strategy=lambda tier: wrapper_strategy, nontrivial=lambda c: len(c["row"]) >= 1, classes=lambda c: [c["kind"], "host:" + c.get("host", "dfg")], n_quick=500, n_thorough=2000),
 ]
